@@ -484,6 +484,43 @@ func Generate(genseed uint64, stream string, thorough bool) *Case {
 	if c.Mode == "g" && r.Chance(1, 2) {
 		c.OwnLim = true
 	}
+	if stream == "cbfail" && !c.Slow && c.Mode == "g" && r.Chance(2, 3) {
+		// single-P schedule, (almost) no yields, limiter observed: a goroutine spawned by eg.Go starts only when
+		// its spawner blocks, so a failing PreCopy cancels the group while siblings are spawned but not started
+		c.OneP, c.Fast, c.OwnLim = true, true, true
+		c.Src, c.Dst = "mem", "mem" // (file I/O would hand the P over at every system call)
+		if c.K == 1 {
+			c.K = 3
+		}
+		c.Root = bigRoot()
+		inD0 := map[int]bool{}
+		for _, k := range c.D0 {
+			inD0[k] = true
+		}
+		var cands []int
+		for k := range g.Reach(c.Root) {
+			kids := map[int]bool{}
+			for _, x := range g.Nodes[k].Succ {
+				if !g.Nodes[x].Foreign() && !inD0[x] {
+					kids[x] = true
+				}
+			}
+			if len(kids) >= 2 && !inD0[k] {
+				for x := range kids {
+					cands = append(cands, x)
+				}
+			}
+		}
+		sort.Ints(cands)
+		if len(cands) > 0 {
+			c.FailNode, c.FailCb = common.Pick(r, cands), "pre"
+			if !c.CbIsSet("pre") {
+				bits := []byte(c.cbBits())
+				bits[0] = '1'
+				c.CbSet = string(bits)
+			}
+		}
+	}
 	return c
 }
 
